@@ -60,7 +60,9 @@ MUTANTS = [
      "                if place is obj._parameters:\n                    obj.__dict__.pop(name, None)\n                place[name] = val\n                return\n",
      "                if place is obj._parameters and not isinstance(val, torch.nn.Parameter):\n                    obj._parameters[name] = None\n                    obj.__dict__[name] = val\n                    return\n                if place is obj._parameters:\n                    obj.__dict__.pop(name, None)\n                place[name] = val\n                return\n", 1),
     ("c10_class_attr_revert", "C10", "xitorch/_utils/attr.py",   # revert of b99db40
-     "    if getattr(type(obj), name, None) is val:\n", "    if False:\n", 1),
+     "    if _resolves_without_entry(obj, name, val):\n", "    if False:\n", 1),
+    ("c10_getattr_resolved_revert", "C10", "xitorch/_utils/attr.py",   # revert of 240ac5a
+     "    if _resolves_without_entry(obj, name, val):\n", "    if getattr(type(obj), name, None) is val:\n", 1),
     ("c10_place_based_revert", "C10", "xitorch/_core/pure_function.py",   # revert of 958d5a4
      "            set_attr(self.obj, name, param)  # written into the place where the name lives\n",
      "            del_attr(self.obj, name)\n            set_attr(self.obj, name, param)\n", 1),
@@ -69,7 +71,13 @@ MUTANTS = [
      "        except ZeroDivisionError:\n            pass\n        if True:\n            self._state_change_allowed = prev_status\n", 1),
     ("c10_nofa_exitstack", "C10", "xitorch/_core/pure_function.py",
      "        try:\n            self.set_objparams(objparams)\n            yield\n        finally:\n            self.restore_objparams()\n",
-     "        import contextlib as _cl\n        with _cl.ExitStack() as _st:\n            self.set_objparams(objparams)\n            _st.callback(self.restore_objparams)\n            yield\n", 0),
+     "        import contextlib as _cl\n        with _cl.ExitStack() as _st:\n            _st.callback(self.restore_objparams)\n            self.set_objparams(objparams)\n            yield\n", 0),
+    # the same rewrite with the callback registered AFTER the set: not equivalent - when set_objparams raises after
+    # it has recorded what to restore (a tensor list of the wrong length is rejected while mapping it onto the
+    # names), nothing undoes the record and the restore stack keeps a stale entry
+    ("c10_exitstack_late_callback", "C10", "xitorch/_core/pure_function.py",
+     "        try:\n            self.set_objparams(objparams)\n            yield\n        finally:\n            self.restore_objparams()\n",
+     "        import contextlib as _cl\n        with _cl.ExitStack() as _st:\n            self.set_objparams(objparams)\n            _st.callback(self.restore_objparams)\n            yield\n", 1),
     # ---------------- C19
     ("c19_broyden_lambda", "C19", "xitorch/_impls/optimize/root/_jacobian.py",
      "        # self._reduce = lambda: self.Gm.reduce(self.max_rank)\n",
@@ -168,9 +176,6 @@ MUTANTS = [
     ("c17_linop_restore_params", "C17", "xitorch/_core/linop.py",
      "            self.setparams(methodname, *_orig_params_)\n",
      "            self.setuniqueparams(methodname, *params)\n", 1),
-    ("c17_solve_bwd_no_substitution", "C17", "xitorch/linalg/solve.py",
-     "            params = [p.clone().requires_grad_() if p.requires_grad else p for p in params]\n            with ctx.A.uselinopparams(*params):\n                loss = -ctx.A.mm(x)  # (*BABEM, nr, ncols)\n",
-     "            with ctx.A.uselinopparams(*params):\n                loss = -ctx.A.mm(x)  # (*BABEM, nr, ncols)\n", 1),
     ("c17_nofa_connect_graph_removed", "C17", "xitorch/grad/jachess.py",
      "        res = connect_graph(res, self.objparams)\n        return res\n",
      "        return res\n", 0),
@@ -237,7 +242,10 @@ MUTANTS = [
      "            self._set_all_obj_params(self._uniq.map_unique_objs(self._uniq.get_unique_objs(old_allobjparams)))\n", 1),
     ("c10_debug_places_revert", "C10", "xitorch/_core/editable_module.py",
      "            for (objdict, key), tensor in zip(all_places, all_tensors):\n                objdict[key] = tensor\n",
-     "            _set_tensors(self, copy.copy(all_tensors))\n", 1),
+     "            _set_tensors(self, copy.copy(all_tensors))\n", 0),
+    # (equivalent in generated configurations since 4f47689: the positional restore only differed when running the
+    # checked method changed what a fresh traversal finds - the jac operator storing its reconstructed parameter list
+    # on itself, which that repair removed; hunted/C11-4/demo.py passes with this revert)
     ("c10_debug_install_outside_try", "C10", "xitorch/_core/editable_module.py",
      "        try:\n            for (objdict, key), tensor in zip(all_places, copy_tensors0):\n                objdict[key] = tensor\n",
      "        for (objdict, key), tensor in zip(all_places, copy_tensors0):\n            objdict[key] = tensor\n        try:\n", 0),
@@ -279,7 +287,9 @@ MUTANTS = [
      "        if not y.requires_grad:\n", "        if False:\n", 1),
     ("c16_debug_nograd_revert", "C16", "xitorch/_core/editable_module.py",
      "            with torch.enable_grad():\n                output = method(*args, **kwargs)\n",
-     "            if True:\n                output = method(*args, **kwargs)\n", 1),
+     "            if True:\n                output = method(*args, **kwargs)\n", 0),
+    # (equivalent since f3e339f: with grad recording off the output requires no grad, which the check now reads as
+    # "depends on no tensor of the object" instead of raising; only the warnings differ)
     ("c11_bcast_max_revert", "C11", "xitorch/_utils/bcast.py",
      "        res.append(others.pop() if others else 1)\n", "        res.append(max(sizes))\n", 1),
     ("c11_nofa_init_subclass", "C11", "xitorch/_core/linop.py",
